@@ -198,3 +198,29 @@ def ast_to_coq(nd, um: UidMap, src_names: dict) -> str:
 def db_to_coq(tables: dict) -> str:
     """tables: name -> {"cols": [[name, dtype]...], "rows": [[...]]}"""
     return "[" + ";\n  ".join(f"({str_to_coq(n)}, {rows_to_coq(t['rows'])})" for n, t in tables.items()) + "]"
+
+
+def ftype_to_coq(ft) -> str:
+    return {"ELEMENT_WISE": "ElementWise", "AGGREGATE": "Aggregate", "WINDOW": "Window"}[ft.name]
+
+
+def cache_to_coq(cache, um: UidMap) -> str:
+    """The observable fields of a real pipe.cache.Cache as a Model/Cache.v record."""
+    n2u = "[" + "; ".join(f"({str_to_coq(n)}, {um.coq(u)})" for n, u in cache.name_to_uuid.items()) + "]"
+    pb = "[" + "; ".join(um.coq(u) for u in cache.partition_by) + "]"
+    cols = "[" + ";\n    ".join(
+        f"({um.coq(u)}, {{| c_name := {str_to_coq(c.name)}; c_dtype := {dtype_to_coq(c.dtype())}; "
+        f"c_ftype := {ftype_to_coq(c.ftype())} |}})" for u, c in cache.cols.items()) + "]"
+    gb = "[" + "; ".join(um.coq(u) for u in sorted(cache.group_by, key=lambda x: um(x))) + "]"
+    return ("{| name_to_uuid := " + n2u + "; partition_by := " + pb + ";\n   cols := " + cols
+            + f";\n   limit := ({int(cache.limit)})%Z; group_by := {gb}; "
+            + f"is_filtered := {'true' if cache.is_filtered else 'false'} |}}")
+
+
+def schema_to_coq(sources, um: UidMap) -> str:
+    """uid -> dtype of the source columns (sources: list of TableImpl)."""
+    ents = []
+    for nd in sources:
+        for c in nd.cols.values():
+            ents.append(f"({um.coq(c._uuid)}, {dtype_to_coq(c.dtype())})")
+    return "[" + "; ".join(ents) + "]"
